@@ -181,7 +181,9 @@ def _inlinable(helper):
     """A private helper can be spliced in place of its call statement: straight parameter list, no value
     returned, no return except as the last statement, no yield / nested scope."""
     a = helper.node.args
-    if a.vararg or a.kwarg or a.posonlyargs or a.kwonlyargs or helper.node.decorator_list:
+    if a.vararg or a.kwarg or a.posonlyargs or a.kwonlyargs:
+        return False
+    if [astx.path(d) for d in helper.node.decorator_list] not in ([], ['staticmethod']):
         return False
     body = astx.strip_doc(helper.node.body)
     for i, st in enumerate(body):
@@ -203,7 +205,7 @@ def inline_helpers(repo, fn):
     todo = []
     for st in astx.walk_stmts(fn.node.body):
         if isinstance(st, ast.Expr) and isinstance(st.value, ast.Call) and \
-                isinstance(st.value.func, ast.Attribute) and astx.path(st.value.func.value) == 'self' and \
+                isinstance(st.value.func, ast.Attribute) and astx.path(st.value.func.value) in ('self', cname) and \
                 any(isinstance(a, ast.For) for a in astx.ancestors(st)) and not starred(st.value):
             h = repo.module(fn.rel).funcs.get(f'{cname}.{st.value.func.attr}')
             if h is not None and h is not fn and _inlinable(h):
@@ -216,9 +218,12 @@ def inline_helpers(repo, fn):
     for st, h in todo:
         call = st.value
         params = [a.arg for a in h.node.args.args]
-        if not params or params[0] != 'self':
+        if h.node.decorator_list:       # @staticmethod: no receiver parameter
+            pass
+        elif not params or params[0] != 'self':
             continue
-        params = params[1:]
+        else:
+            params = params[1:]
         bound = {}
         for i, a in enumerate(call.args):
             if i < len(params):
@@ -485,11 +490,15 @@ class Model:
                         return B(inner.key, 'array')
         return None
 
-    def shape_ok(self, shp, at):
+    def shape_ok(self, shp, at, depth=0):
         """The shape argument is derived from the value array or the constraint size."""
         for n in astx.walk(shp):
             if isinstance(n, ast.Name) and self.arr_kind(n, at) is not None:
                 return True
+            if isinstance(n, ast.Name) and depth < 3:
+                v, d = self.defval(n.id, at)    # shape = con_val.shape
+                if v is not None and self.shape_ok(v, d, depth + 1):
+                    return True
             if self.vec_item(n, at):
                 return True
             if self.meta_key(n, at) in ('size', 'global_size'):
@@ -1504,6 +1513,28 @@ def lsq_of(repo, qn):
     return cache[qn]
 
 
+def literal_range(name):
+    """Constants a Name ranges over when it is the target of an enclosing comprehension generator or for
+    loop over a literal tuple/list of constants; else None."""
+    cur = name
+    for anc in astx.ancestors(name):
+        gens = []
+        if isinstance(anc, (ast.ListComp, ast.GeneratorExp, ast.SetComp, ast.DictComp)):
+            gens = [(g.target, g.iter, bool(g.ifs)) for g in anc.generators]
+        elif isinstance(anc, ast.For) and any(c is cur for c in anc.body):
+            gens = [(anc.target, anc.iter, False)]
+        for tg, it, filt in gens:
+            if isinstance(tg, ast.Name) and tg.id == name.id:
+                if not filt and isinstance(it, (ast.Tuple, ast.List)) and it.elts and \
+                        all(isinstance(x, ast.Constant) for x in it.elts):
+                    return [x.value for x in it.elts]
+                return None
+        if isinstance(anc, (ast.FunctionDef, ast.AsyncFunctionDef)):
+            return None
+        cur = anc
+    return None
+
+
 def _gcv_calls(L):
     return [c for c in astx.calls(L.fn.node) if astx.callee_attr(c) == 'get_constraint_values' and
             astx.path(astx.receiver(c)) == 'self']
@@ -1517,6 +1548,7 @@ def lsq(repo, out):
     if not calls:
         raise AnalysisError(f'{L.fn.ident}: does not call self.get_constraint_values')
     lintypes = []
+    decided = 0
     for c in calls:
         at = L.at(c)
         st = astx.stmt_of(c)
@@ -1552,9 +1584,16 @@ def lsq(repo, out):
                     key='lsq-partition')
             continue
         lt = astx.arg(c, 1, 'lintype')
-        lintypes.append('all' if lt is None else astx.const_str(lt))
-        out.ok(L.fn, st, f'viol=True, driver_scaling forwarded, lintype={lintypes[-1]}')
-    if len(lintypes) == len(calls):
+        rng = literal_range(lt) if isinstance(lt, ast.Name) else None
+        if rng is not None:     # one call evaluated once per literal of a constant sequence
+            for x in rng:
+                lintypes.append(x if isinstance(x, str) else None)
+                out.ok(L.fn, st, f'viol=True, driver_scaling forwarded, lintype={x!r} (from the literal sequence)')
+        else:
+            lintypes.append('all' if lt is None else astx.const_str(lt))
+            out.ok(L.fn, st, f'viol=True, driver_scaling forwarded, lintype={lintypes[-1]}')
+        decided += 1
+    if decided == len(calls):
         if sorted(map(str, lintypes)) in (['all'], ['linear', 'nonlinear']):
             out.ok(L.fn, astx.stmt_of(calls[0]), f'constraints partitioned as {lintypes}: each appears once')
         elif None in lintypes:
@@ -1648,6 +1687,47 @@ def _flatten_concat(e):
     return [e]
 
 
+def dict_seq(L, e, at, depth=0):
+    """Ordered parts of an expression denoting a *sequence of violation dicts*: a literal tuple/list, a local
+    bound to one, or `[self.get_constraint_values(.., t, ..) for t in (<literals>)]` (each literal becomes
+    a Constant part carrying the lintype).  None if not recognised."""
+    if depth > 4:
+        return None
+    if isinstance(e, (ast.Tuple, ast.List)) and e.elts and not any(isinstance(x, ast.Starred) for x in e.elts):
+        return [(x, at) for x in e.elts]
+    if isinstance(e, ast.Name):
+        vs = L.values(e.id, at)
+        if vs and len(vs) == 1:
+            return dict_seq(L, vs[0][0], vs[0][1], depth + 1)
+        return None
+    if isinstance(e, (ast.ListComp, ast.GeneratorExp)) and len(e.generators) == 1 and not e.generators[0].ifs:
+        c = e.elt
+        if isinstance(c, ast.Call) and astx.callee_attr(c) == 'get_constraint_values' and not starred(c):
+            lt = astx.arg(c, 1, 'lintype')
+            rng = literal_range(lt) if isinstance(lt, ast.Name) else None
+            if rng is not None and isinstance(e.generators[0].target, ast.Name) and \
+                    e.generators[0].target.id == lt.id:
+                return [(ast.Constant(value=x), at) for x in rng]
+    return None
+
+
+def part_tag(L, p, at):
+    """lintype tag ('linear' / 'nonlinear' / 'all') of one residual part, or None."""
+    if isinstance(p, ast.Constant):
+        return p.value if isinstance(p.value, str) else None
+    call = None
+    if isinstance(p, ast.Call):
+        call = p
+    elif isinstance(p, ast.Name):
+        vs = L.values(p.id, at)
+        if vs and len(vs) == 1:
+            call = vs[0][0]
+    if isinstance(call, ast.Call) and astx.callee_attr(call) == 'get_constraint_values' and not starred(call):
+        lt = astx.arg(call, 1, 'lintype')
+        return 'all' if lt is None else astx.const_str(lt)
+    return None
+
+
 def _expand_iter(L, e, at, outer):
     """Dict expressions iterated by `e` (an iterable of violation arrays), in order; None if unknown.
 
@@ -1685,13 +1765,21 @@ def residual_parts(L):
         a0 = st.value.args[0]
         at = L.g.nodes_of(st)[0]
         if isinstance(a0, (ast.ListComp, ast.GeneratorExp)):
-            if len(a0.generators) != 1 or not isinstance(a0.generators[0].target, ast.Name):
+            gens = a0.generators
+            if len(gens) not in (1, 2) or not all(isinstance(g_.target, ast.Name) for g_ in gens):
                 return None
-            gen = a0.generators[0]
-            parts = _expand_iter(L, gen.iter, at, {})
+            outer = {}
+            if len(gens) == 2:      # for d in <sequence of dicts> for v in d.values()
+                seq = dict_seq(L, gens[0].iter, at)
+                if seq is None:
+                    return None
+                outer[gens[0].target.id] = [x for x, _ in seq]
+            gen = gens[-1]
+            parts = _expand_iter(L, gen.iter, at, outer)
             if parts is None:
                 return None
-            return dict(stmt=st, parts=parts, elts=[(a0.elt, gen.target.id, st)], filtered=bool(gen.ifs))
+            return dict(stmt=st, parts=parts, elts=[(a0.elt, gen.target.id, st)],
+                        filtered=any(g_.ifs for g_ in gens))
         if not isinstance(a0, ast.Name):
             return None
         acc = a0.id
@@ -1738,10 +1826,10 @@ def residual_parts(L):
                 inner_iter, var, elt = loops[-1].iter, loops[-1].target.id, arg
                 seq_loops = loops[:-1]
             for lp in seq_loops:
-                if not (isinstance(lp.target, ast.Name) and isinstance(lp.iter, (ast.Tuple, ast.List)) and
-                        lp.iter.elts and not lp.orelse):
+                seq = dict_seq(L, lp.iter, L.g.nodes_of(lp)[0]) if L.g.nodes_of(lp) else None
+                if not isinstance(lp.target, ast.Name) or seq is None or lp.orelse:
                     return None
-                outer[lp.target.id] = list(lp.iter.elts)
+                outer[lp.target.id] = [x for x, _ in seq]
             if len(seq_loops) > 1:
                 return None
             if any(lp.orelse for lp in loops) or any(isinstance(x, (ast.Break, ast.Continue))
@@ -1769,14 +1857,7 @@ def rows(repo, out):
     if rp is not None:
         tags = []
         for p, at in rp['parts']:
-            tag = None
-            if isinstance(p, ast.Name):
-                vs = L.values(p.id, at)
-                if vs and len(vs) == 1 and isinstance(vs[0][0], ast.Call) and \
-                        astx.callee_attr(vs[0][0]) == 'get_constraint_values' and not starred(vs[0][0]):
-                    lt = astx.arg(vs[0][0], 1, 'lintype')
-                    tag = 'all' if lt is None else astx.const_str(lt)
-            tags.append(tag)
+            tags.append(part_tag(L, p, at))
         if tags and None not in tags:
             orders['residual'] = (L.fn, rp['stmt'], tags)
             recog = True
@@ -1800,10 +1881,12 @@ def rows(repo, out):
             orders['con_row_map'] = (F.fn, st, tags)
             recog = True
             # the offsets must accumulate
-            incs = [s for s in st.body if isinstance(s, ast.AugAssign) and isinstance(s.op, ast.Add)]
             sl = stores[0].value
-            if len(sl.args) == 2 and isinstance(sl.args[0], ast.Name) and \
-                    not any(astx.path(s.target) == sl.args[0].id for s in incs):
+            advanced = {astx.path(t) for s2 in astx.walk_stmts(st.body)
+                        if isinstance(s2, (ast.Assign, ast.AugAssign)) and
+                        not (isinstance(s2, ast.Assign) and isinstance(s2.value, ast.Constant))
+                        for t in astx.assigned_targets(s2)}
+            if len(sl.args) == 2 and isinstance(sl.args[0], ast.Name) and sl.args[0].id not in advanced:
                 out.bad(F.fn, stores[0], f'row offset `{sl.args[0].id}` is not advanced in the loop: all constraints '
                         f'map to the same rows of the violation vector', key='row-offset')
     if not recog:
@@ -2322,6 +2405,35 @@ def _helper_def(block):
             + body + '\n')
 
 
+_ROWMAP = ("        i = 0\n        for name, meta in chain(lincons.items(), nl_cons.items()):\n"
+           "            size = meta['global_size'] if meta['distributed'] else meta['size']\n"
+           "            con_row_map[name] = slice(i, i + size)\n            i += size\n")
+
+
+def _static_helper():
+    return ("    @staticmethod\n    def _val_to_viol(con_val, meta):\n"
+            '        """Replace values by violations in place."""\n'
+            "        if meta['equals'] is None:\n"
+            "            shape = con_val.shape\n"
+            "            lower = np.broadcast_to(meta['lower'], shape)\n"
+            "            upper = np.broadcast_to(meta['upper'], shape)\n"
+            "            below = np.where(con_val < lower)[0]\n"
+            "            above = np.where(con_val > upper)[0]\n"
+            "            inside = np.where((con_val >= lower) & (con_val <= upper))[0]\n"
+            "            con_val[below] -= lower[below]\n"
+            "            con_val[above] -= upper[above]\n"
+            "            con_val[inside] = 0.0\n"
+            "        else:\n"
+            "            con_val -= meta['equals']\n\n")
+
+
+def _comp_residual(literals):
+    return ("            viol_dicts = [self.get_constraint_values('all', lintype, driver_scaling, True)\n"
+            f"                          for lintype in {literals}]\n\n"
+            "            return np.concatenate([viol.ravel() for viol_dict in viol_dicts\n"
+            "                                   for viol in viol_dict.values()])\n")
+
+
 def _loop_residual(seq, elt):
     return ("            flat_viols = []\n"
             f"            for viol_dict in {seq}:\n"
@@ -2570,5 +2682,30 @@ selftest(
            "            con_viol_dict = self.get_constraint_values(driver_scaling=driver_scaling,\n"
            "                                                       viol=True)\n\n"
            "            return np.concatenate([v.ravel() for v in con_viol_dict.values()])\n", 'C22.rows'),
+    # ---- second robustness round: static helper with swapped branches, comprehension-built calls, start/end offsets
+    Twin('twin-static-helper-swapped', _D, _VIOL_BLOCK, _HELPER_CALL, also=[(_D, _NEXT_DEF, _static_helper() + _NEXT_DEF)]),
+    Mutant('static-helper-wrong-mask', _D, _VIOL_BLOCK, _HELPER_CALL, 'C22.pair',
+           also=[(_D, _NEXT_DEF, _static_helper().replace('con_val < lower)', 'con_val > lower)') + _NEXT_DEF)]),
+    Mutant('static-helper-unindexed-bound', _D, _VIOL_BLOCK, _HELPER_CALL, 'C22.index',
+           also=[(_D, _NEXT_DEF, _static_helper().replace('-= upper[above]', "-= meta['upper']") + _NEXT_DEF)]),
+    Mutant('static-helper-strict-zero-mask', _D, _VIOL_BLOCK, _HELPER_CALL, 'C22.zero',
+           also=[(_D, _NEXT_DEF, _static_helper().replace('(con_val >= lower) & (con_val <= upper)',
+                                                          '(con_val > lower) & (con_val < upper)') + _NEXT_DEF)]),
+    Twin('twin-residual-nested-comprehension', _D, _LIN_CALL + "\n" + _NL_CALL + "\n" + _RETURN_CONCAT,
+         _comp_residual("('linear', 'nonlinear')")),
+    Mutant('comp-residual-swapped-literals', _D, _LIN_CALL + "\n" + _NL_CALL + "\n" + _RETURN_CONCAT,
+           _comp_residual("('nonlinear', 'linear')"), 'C22.rows'),
+    Mutant('comp-residual-duplicate-literal', _D, _LIN_CALL + "\n" + _NL_CALL + "\n" + _RETURN_CONCAT,
+           _comp_residual("('linear', 'linear')"), 'C22.lsq'),
+    Mutant('comp-residual-no-viol', _D, _LIN_CALL + "\n" + _NL_CALL + "\n" + _RETURN_CONCAT,
+           _comp_residual("('linear', 'nonlinear')").replace(', driver_scaling, True)', ', driver_scaling)'), 'C22.lsq'),
+    Twin('twin-row-offset-start-end', _D, _ROWMAP,
+         "        start = 0\n        for name, meta in chain(lincons.items(), nl_cons.items()):\n"
+         "            end = start + (meta['global_size'] if meta['distributed'] else meta['size'])\n"
+         "            con_row_map[name] = slice(start, end)\n            start = end\n"),
+    Mutant('row-offset-start-not-advanced', _D, _ROWMAP,
+           "        start = 0\n        for name, meta in chain(lincons.items(), nl_cons.items()):\n"
+           "            end = start + (meta['global_size'] if meta['distributed'] else meta['size'])\n"
+           "            con_row_map[name] = slice(start, end)\n", 'C22.rows'),
     Twin('twin-select-positional', _D, "it = filter_by_meta(it, 'linear', exclude=True)", "it = filter_by_meta(it, 'linear', False, True)"),
 )
